@@ -106,7 +106,7 @@ func (session *BaseInSession) InitWithSdp(sdpCtx sdp.LogicContext) {
 	session.sdpCtx = sdpCtx
 	session.mu.Unlock()
 
-	// unpackers divide rtp timestamps by uint32(clockRate/1000), a clock rate from the sdp that makes it zero is not unpackable
+	// unpackers divide rtp timestamps by the clock rate; a clock rate from the sdp below 1000 (or one whose uint32(clockRate/1000) is zero) is not unpackable
 	if session.sdpCtx.IsAudioUnpackable() && uint32(session.sdpCtx.AudioClockRate/1000) != 0 {
 		session.audioUnpacker = rtprtcp.DefaultRtpUnpackerFactory(session.sdpCtx.GetAudioPayloadTypeBase(), session.sdpCtx.AudioClockRate, unpackerItemMaxSize, session.onAvPacketUnpacked)
 	} else {
